@@ -1,6 +1,8 @@
 (** Model of boc/merkle_proof.go (Cursor / Prune / CreateProof) and
-    immutableCell.pruneCells, on cell trees; plus the walk of
-    tlb.ProveKeyInHashmap over a dictionary cell. *)
+    immutableCell.pruneCells, on cell trees (ordinary cells, library cells and
+    pruned branches of any level mask; Merkle cells are refused as in Go); the
+    walk of tlb.ProveKeyInHashmap over a dictionary cell; operations on one
+    prover and histories of them. *)
 From Coq Require Import List NArith Arith Bool.
 From Tongo Require Import Lib.Bits Lib.Res Model.BocParse Model.CellHash Spec.ReprHash.
 Import ListNotations.
@@ -90,6 +92,7 @@ Definition load_label (m : nat) (l : bits) : option (bits * bits) :=
   | _ => None
   end.
 
+Definition cell_special (c : cell) : bool := match c with Cell s _ _ _ _ => s end.
 Definition cell_bits (c : cell) : bits := match c with Cell _ _ _ d _ => d end.
 Definition cell_refs (c : cell) : list cell := match c with Cell _ _ _ _ r => r end.
 
@@ -101,6 +104,7 @@ Fixpoint prove_walk (fuel : nat) (c : cell) (key : bits) (remaining keysize : na
   match fuel with
   | O => Err EFuel
   | S f =>
+      if cell_special c then Err EMerkle else      (* a pruned branch / exotic cell is not a dictionary node *)
       match load_label remaining (cell_bits c) with
       | None => Err EMerkle
       | Some (lab, rest) =>
@@ -144,3 +148,37 @@ Definition prove_key (root : cell) (key : bits) (vbits : nat) : res cell :=
   if negb (bits_eqb (firstn (length key) prefix) key) then Err EMerkle else
   create_proof H (in_paths pruned) root.
 End K.
+
+(** *** operations on ONE prover and histories
+    An operation is what a caller does between [prover.Cursor()] and the end of
+    its use of that cursor.  The Go prover keeps the immutable root only; the
+    pruned set belongs to the cursor and is created empty by [Cursor()].  So the
+    model of an operation is a pure function of (root, operation), and the
+    model of a history is the list of the operations' results.  [same p q]:
+    positions p and q hold the same immutable cell (Go prunes by identity). *)
+Inductive op :=
+| OpKey (key : bits) (vbits : nat)        (* tlb.ProveKeyInHashmap(prover, root, key) *)
+| OpWalk (prunes : list (list nat))       (* Cursor(); Ref/Prune at each path; CreateProof *)
+| OpDrop (prunes : list (list nat)).      (* the same cursor work, abandoned *)
+
+Section Ops.
+Variable H : bytes -> bytes.
+Variable same : list nat -> list nat -> bool.
+
+Definition run_op (root : cell) (o : op) : option (res cell) :=
+  match o with
+  | OpKey key vbits => Some (prove_key H root key vbits)
+  | OpWalk prunes => Some (create_proof H (fun p => existsb (same p) prunes) root)
+  | OpDrop _ => None
+  end.
+
+(* the prover as a state machine: state = the prover (its root); every
+   operation starts from a fresh cursor *)
+Definition prover_step (root : cell) (o : op) : cell * option (res cell) := (root, run_op root o).
+
+Fixpoint prover_run (root : cell) (ops : list op) : list (option (res cell)) :=
+  match ops with
+  | [] => []
+  | o :: t => let '(root', out) := prover_step root o in out :: prover_run root' t
+  end.
+End Ops.
